@@ -339,10 +339,10 @@ def _shard(indices):
 
 
 def _wants_edits(info, i):
-    """quick: corpus, every body of cost <= 1 (all hosts) and every fourth other program; thorough: all."""
+    """quick: corpus, every body of cost <= 1 (all hosts) and every tenth other program; thorough: all."""
     if _TIER != "quick":
         return True
-    return info.ident.startswith("corpus:") or info.ident.count(";") == 0 or i % 4 == 0
+    return info.ident.startswith("corpus:") or info.ident.count(";") == 0 or i % 10 == 0
 
 
 def _wants_tree_edits(info, i):
